@@ -52,7 +52,13 @@ def run_cone(ctx, tag, roots, min_bodies, stop=(), extra_filter=None, audit_path
                 # cone may call this one
                 from engine.rules import root_fn
                 me = root_fn(s.body.path)
-                callers = sorted({root_fn(p) for p, b in cone.bodies.items() if root_fn(p) != me and b.call_sites([me])})
+                pats = [me]
+                import re as _re
+                m = _re.match(r"^<.+ as ([^<>]+?)(?:<.*>)?>::([A-Za-z_0-9]+)$", me)
+                if m:
+                    # calls through the trait on a type parameter (`M::hash_nodes`)
+                    pats.append("*%s::%s" % (m.group(1).rsplit("::", 1)[-1], m.group(2)))
+                callers = sorted({root_fn(p) for p, b in cone.bodies.items() if root_fn(p) != me and b.call_sites(pats)})
                 extra = [c for c in callers if c not in a["callers"]]
                 ctx.check(not extra, tag + ".callers", s.body.path, "%s relies on its decode-path callers (%s); unexpected caller(s): %s" % (s.kind, a["reason"][:80], extra), site=s.loc, key="P|callers|" + key)
             else:
